@@ -71,6 +71,7 @@ func runWorkload(w workload) (msg string, maxInflight int32, evals int64) {
 	}
 	// phase A: concurrent parsing
 	parsed := make([][]obs.ParseOut, w.G)
+	rejected := make([][]string, w.G)
 	{
 		start := make(chan struct{})
 		var wg sync.WaitGroup
@@ -82,10 +83,34 @@ func runWorkload(w workload) (msg string, maxInflight int32, evals int64) {
 				for _, tx := range texts {
 					parsed[g] = append(parsed[g], obs.Parse([]byte(tx)))
 				}
+				// the same rejected text, long enough for the parses to overlap, each goroutine with its own copy:
+				// every caller gets its own source, diagnostics and line table, and formats them itself
+				for _, bad := range c09Rejected {
+					p := obs.Parse([]byte(bad))
+					desc := fmt.Sprintf("%v", p.Err)
+					if p.Src != nil && len(p.Src.Diagnostics) > 0 {
+						desc += " | " + formula.FormatDiagnostic(p.Src, p.Src.Diagnostics[0])
+						desc += fmt.Sprintf(" | ndiag=%d", len(p.Src.Diagnostics))
+					}
+					rejected[g] = append(rejected[g], desc)
+				}
 			}(g)
 		}
 		close(start)
 		wg.Wait()
+	}
+	for k, bad := range c09Rejected {
+		p := obs.Parse([]byte(bad))
+		want := fmt.Sprintf("%v", p.Err)
+		if p.Src != nil && len(p.Src.Diagnostics) > 0 {
+			want += " | " + formula.FormatDiagnostic(p.Src, p.Src.Diagnostics[0])
+			want += fmt.Sprintf(" | ndiag=%d", len(p.Src.Diagnostics))
+		}
+		for g := 0; g < w.G; g++ {
+			if rejected[g][k] != want {
+				return fmt.Sprintf("goroutine %d: concurrent parse of a rejected text of %d bytes reported %s, sequentially it reports %s", g, len(bad), rejected[g][k], want), 0, 0
+			}
+		}
 	}
 	trees := make([]*formula.SourceCode, 0, len(texts))
 	for i, tx := range texts {
@@ -282,6 +307,9 @@ func runWorkload(w workload) (msg string, maxInflight int32, evals int64) {
 	}
 	return "", atomic.LoadInt32(&maxSeen), atomic.LoadInt64(&total)
 }
+
+// c09Rejected: rejected texts that all goroutines parse at the same time.
+var c09Rejected = []string{strings.Repeat("amount * rate +\n", 1500) + "(total", "a ? b\r\n", strings.Repeat("[x,\u2028", 400) + "1 2"}
 
 // c09WhoAmI is a host function that asks which runner is evaluating it, the way
 // RunnerFromCtx offers: the runner the caller put into the context, or none.
